@@ -9,6 +9,7 @@ mod fixedwindow;
 mod fsutil;
 mod jsonline;
 mod levelgate;
+mod datezone;
 mod registry;
 mod pattern;
 mod literals;
@@ -31,6 +32,7 @@ fn main() {
         "routing" => routing::main(rest),
         "cfgbuild" => cfgbuild::main(rest),
         "fanout" => fanout::main(rest),
+        "datezone" => datezone::main(rest),
         "registry" => registry::main(rest),
         "rolltrace" => rolltrace::main(rest),
         "configfile" => configfile::main(rest),
